@@ -104,3 +104,96 @@ func verifH_C05_concurrent() {
 	o.drain("C05(concurrent)")
 	verifReach("end")
 }
+
+// C05 — a publisher racing the read routine's reconnect. The Persistence and
+// the connection are scheduling points (a Save and a Write take time), so the
+// publisher may hold its level's sequence token anywhere inside connect():
+// both must return (a lock-order inversion is a deadlock), the new connection
+// carries CONNECT, then the pending transfers in order, then the new publish
+// at most once and without DUP, and the observer finds exactly the in-flight set.
+func verifH_C05_reconnectrace() {
+	level := 1 + verifChoose("level", 2)
+	w1, wp := 0, 0
+	if level == 1 {
+		w1 = 1
+	} else {
+		wp = 1
+	}
+	e := verifConnectState(w1, 0, wp)
+	o := e.o
+	c := o.c
+	conn := e.conn
+	conn.in = []byte{0x20, 2, 0, 0}
+	conn.rEOF = false
+	conn.slow = true
+	o.store.slow = true
+	var cerr, perr error
+	var ex <-chan error
+	finished := 0
+	go func() {
+		cerr = c.connect()
+		finished++
+	}()
+	go func() {
+		if level == 1 {
+			ex, perr = c.PublishAtLeastOnce([]byte{'n'}, "n")
+		} else {
+			ex, perr = c.PublishExactlyOnce([]byte{'n'}, "n")
+		}
+		finished++
+	}()
+	verifQuiesce()
+	verifAssert(finished == 2, "C05: a publisher racing the reconnect, or the reconnect itself, never returns")
+	conn.slow = false
+	o.store.slow = false
+	verifAssert(cerr == nil, "C05: connect fails next to a concurrent publisher")
+	verifAssert(perr == nil, "C05: publish refused below the maximum next to a reconnect")
+	_ = ex
+	verifTokensHome(c, "C05(reconnect race)")
+	// the new publish got the next identifier
+	var q []verifEntry
+	var id uint
+	if level == 1 {
+		q = o.q1
+		id = verifID1(c.orderedTxs.Acked + uint(len(q)))
+	} else {
+		q = o.q2
+		id = verifID2(c.orderedTxs.Completed + uint(len(q)))
+	}
+	np := verifRefPublish(false, level, false, []byte{'n'}, uint16(id), []byte{'n'})
+	packets, rest, ok := verifSplit(conn.wlog)
+	verifAssert(ok && len(rest) == 0, "C08: incomplete or malformed packet on the new connection")
+	verifAssert(len(packets) >= 1+len(q), "C05: pending transfers not resent on the new connection")
+	if len(packets) < 1+len(q) {
+		return
+	}
+	verifAssert(packets[0][0] == 0x10, "C18: the connection does not start with CONNECT")
+	old := verifWireOf(q)
+	var got []byte
+	for _, p := range packets[1 : 1+len(q)] {
+		got = append(got, p...)
+	}
+	verifAssert(verifBytesEq(got, old), "C05: after the reconnect the unacknowledged transfers are not retransmitted first, in order (a new publish overtook them, or DUP is wrong)")
+	tail := packets[1+len(q):]
+	verifAssert(len(tail) <= 1, "C05: the new publish is on the wire more than once")
+	written := false
+	if len(tail) == 1 {
+		verifAssert(verifBytesEq(tail[0], np), "C05: the packet after the resend is not the new publish as a first transmission (no DUP, next identifier)")
+		written = true
+		verifReach("new-after-old")
+	}
+	ent := verifEntry{id: id, packet: np, written: written}
+	for i := range o.q1 {
+		o.q1[i].written = true // resent completely on this connection
+	}
+	for i := range o.q2 {
+		o.q2[i].written = true
+	}
+	if level == 1 {
+		o.q1 = append(o.q1, ent)
+	} else {
+		o.q2 = append(o.q2, ent)
+	}
+	o.observe("C05(reconnect race)")
+	verifReach("end")
+}
